@@ -142,9 +142,27 @@ class ImmutBroken(MonitorViolation):
         MonitorViolation.__init__(self, "M-immut", msg)
 
 
+def _instance_attrs(node):
+    """Names stored on every node OBJECT of the tree (fields and anything else that found
+    its way into an instance __dict__, e.g. a cached_property), iteratively."""
+    import dataclasses
+    out, stack, seen = [], [node], 0
+    while stack and seen < 200000:
+        x = stack.pop()
+        seen += 1
+        if dataclasses.is_dataclass(x) and not isinstance(x, type):
+            d = getattr(x, "__dict__", None)
+            out.append((type(x).__name__, tuple(sorted(d)) if d is not None else ()))
+            for f in dataclasses.fields(x):
+                stack.append(getattr(x, f.name, None))
+        elif isinstance(x, (list, tuple)):
+            stack.extend(x)
+    return tuple(out)
+
+
 def _snapshot(node):
     try:
-        return decode(node)
+        return (decode(node), _instance_attrs(node))
     except (DecodeError, KeyError, AttributeError, RecursionError):
         return None
 
